@@ -228,6 +228,58 @@ def check(ctx, report):
             if 'seconds' in reads and 'days' not in reads or reads == {'days'}:
                 report.add('C14.R3', f.construct + '@timedelta[%s]' % ','.join(sorted(reads)),
                            'a time delta is rendered from .%s only: the other components are dropped (use total_seconds())' % ','.join(sorted(reads)))
+    # ---- R5: data never becomes a format template (a field name or value containing { } % must not be interpreted)
+    report.rule('C14.R5', 'format templates of the serialiser are literals: data is only ever an argument of str.format / %')
+    for c, f in ser_funcs:
+        for n in ast.walk(f.node):
+            tmpl = None
+            if isinstance(n, ast.Call) and isinstance(n.func, ast.Attribute) and n.func.attr in ('format', 'format_map'):
+                tmpl = n.func.value
+            elif isinstance(n, ast.BinOp) and isinstance(n.op, ast.Mod) and not isinstance(n.left, (ast.Constant, ast.Name, ast.Attribute, ast.Call, ast.BinOp)):
+                tmpl = None
+            elif isinstance(n, ast.BinOp) and isinstance(n.op, ast.Mod) and isinstance(n.right, (ast.Tuple, ast.Dict)):
+                tmpl = n.left
+            if tmpl is None:
+                continue
+            report.count('C14.R5')
+            if not (isinstance(tmpl, ast.Constant) and isinstance(tmpl.value, str)):
+                report.add('C14.R5', '%s@template[%s]' % (f.construct, ast.unparse(tmpl)[:40]),
+                           'the format template %s is built at run time: a name or value containing braces (or %%) is interpreted as a replacement '
+                           'field and makes the serialisation fail' % ast.unparse(tmpl)[:60])
+    # ---- R6: sibling agreement of the two dispatch chains: the types Markdown prints with str() have a str() branch in the
+    # JSON traversal *before* its generic __dict__ fallback (the instance dictionary of library objects holds whatever
+    # cached properties happen to have been read: equal objects would render differently)
+    report.rule('C14.R6', 'JSON traversal: foreign value types are rendered as text before the generic __dict__ branch; no mapping built from repeated keys')
+    jt = ser.methods.get('_json_traverse')
+    report.count('C14.R6')
+    if jt is not None:
+        tests = []
+        for n in ast.walk(jt.node):
+            if isinstance(n, ast.If):
+                tests.append((n.lineno, ast.unparse(n.test)))
+        tests.sort()
+        texts = [t for _, t in tests]
+        dict_at = next((i for i, t in enumerate(texts) if "'__dict__'" in t), None)
+        str_at = next((i for i, t in enumerate(texts) if '_MARKDOWN_RESULT_STRING_CLASSES' in t or 'ipaddress' in t), None)
+        if dict_at is not None and (str_at is None or str_at > dict_at):
+            report.add('C14.R6', jt.construct + '@foreign-objects',
+                       'address / URL objects reach the generic __dict__ branch of the JSON traversal: their instance dictionary depends on which '
+                       'cached properties were read before, so equal objects render differently (Markdown prints them with str())')
+    # a mapping built from (key, value) pairs collected in a loop over a list attribute loses every item whose key repeats
+    for c, f in ser_funcs:
+        if f.name != '_asdict':
+            continue
+        for n in ast.walk(f.node):
+            if isinstance(n, ast.Call) and ast.unparse(n.func).split('.')[-1] in ('OrderedDict', 'dict') and len(n.args) == 1 and isinstance(n.args[0], ast.Name):
+                var = n.args[0].id
+                loops = [lp for lp in ast.walk(f.node) if isinstance(lp, ast.For) and ast.unparse(lp.iter).startswith('self.') and
+                         any(isinstance(x, ast.Call) and isinstance(x.func, ast.Attribute) and x.func.attr == 'append' and
+                             isinstance(x.func.value, ast.Name) and x.func.value.id == var for x in ast.walk(lp))]
+                if loops:
+                    report.count('C14.R6')
+                    report.add('C14.R6', '%s@mapping[%s]' % (f.construct, var),
+                               'the items of %s are rendered as a mapping keyed by their kind: two items of the same kind collapse into one '
+                               '(the rendering silently drops data)' % ast.unparse(loops[0].iter))
     # ---- R4
     for c in model.repo_classes():
         f = c.methods.get('_asdict')
